@@ -37,11 +37,11 @@ def rand_rotation(rng):
     return sky._rot("z", a) @ sky._rot("x", b) @ sky._rot("z", c)
 
 
-def measure(yaw, sc, expA, expB, work, emb, *, extra=None, order=None, wscale_unk=1.0, wscale_ref=1.0, perm=None, inherit=False, split=False):
+def measure(yaw, sc, expA, expB, work, emb, *, extra=None, order=None, wscale_unk=1.0, wscale_ref=1.0, perm=None, inherit=False, split=False, unweighted_unk=False):
     import pandas as pd
 
     dref, dunk = sky.frames(sc, expA, emb, extra, order, wscale_unk)
-    _, drnd = sky.frames(sc, expB, emb, extra, order, 1.0)
+    drref, drnd = sky.frames(sc, expB, emb, extra, order, 1.0)      # the second scenario supplies the random catalogs
     dref["w"] = dref["w"] * wscale_ref
     cen = sky.centre_coords(sc, emb, extra, perm)
     kw = dict(ra_name="ra", dec_name="dec", weight_name="w", overwrite=True, max_workers=1, chunksize=2)
@@ -67,7 +67,10 @@ def measure(yaw, sc, expA, expB, work, emb, *, extra=None, order=None, wscale_un
     else:
         cref = yaw.Catalog.from_dataframe(work / "ref", dref, redshift_name="z", patch_centers=cen, **kw)
         cen_kw = dict(patch_centers=cen)
-    crnd = yaw.Catalog.from_dataframe(work / "rnd", drnd, **cen_kw, **kw)
+    kwu = dict(kw)
+    if unweighted_unk:       # unknown sample and its randoms carry no weight column at all (all model weights are 1)
+        kwu.pop("weight_name")      # (the weights of the scenario's unknown objects are simply not used in these runs)
+    crnd = yaw.Catalog.from_dataframe(work / "rnd", drnd, **cen_kw, **kwu)
     cfg = sc.yaw_config()
     out = {}
     if split:
@@ -75,7 +78,7 @@ def measure(yaw, sc, expA, expB, work, emb, *, extra=None, order=None, wscale_un
         tot = None
         for k, h in enumerate(halves):
             try:
-                cu = yaw.Catalog.from_dataframe(work / f"unk{k}", h.reset_index(drop=True), **cen_kw, **kw)
+                cu = yaw.Catalog.from_dataframe(work / f"unk{k}", h.reset_index(drop=True), **cen_kw, **kwu)
             except ValueError:
                 return None  # a half leaves a centre empty: creation is (rightly) refused
             (cf,) = yaw.crosscorrelate(cfg, cref, cu, unk_rand=crnd, max_workers=1)
@@ -83,7 +86,7 @@ def measure(yaw, sc, expA, expB, work, emb, *, extra=None, order=None, wscale_un
             tot = arr if tot is None else tot + arr
         out["dd_counts"] = tot
         return out
-    cunk = yaw.Catalog.from_dataframe(work / "unk", dunk, **cen_kw, **kw)
+    cunk = yaw.Catalog.from_dataframe(work / "unk", dunk, **cen_kw, **kwu)
     (cf,) = yaw.crosscorrelate(cfg, cref, cunk, unk_rand=crnd, max_workers=1)
     (af,) = yaw.autocorrelate(cfg, cref, cref, count_rr=False, max_workers=1)
     cd = cf.sample()
@@ -94,6 +97,14 @@ def measure(yaw, sc, expA, expB, work, emb, *, extra=None, order=None, wscale_un
     nz = yaw.RedshiftData.from_corrfuncs(cf)
     out["nz"] = nz.data
     out["nz_samples"] = nz.samples
+    # Landy-Szalay with both random catalogs (no factor cancels between its terms)
+    try:
+        crref = yaw.Catalog.from_dataframe(work / "rref", drref, redshift_name="z", **cen_kw, **kw)
+        (lf,) = yaw.crosscorrelate(cfg, cref, cunk, ref_rand=crref, unk_rand=crnd, max_workers=1)
+        ls = lf.sample()
+        out["amp_ls"], out["samples_ls"] = ls.data, ls.samples
+    except ValueError:
+        out["amp_ls"] = out["samples_ls"] = None      # the reference randoms leave a centre empty: creation refused
     out["auto_counts"] = af.dd.counts.get_array()
     ad = af.sample()
     out["auto_amp"] = ad.data
@@ -161,13 +172,23 @@ def _case(ctx, yaw, case, A, B, sc, root, rng, embs, nc) -> None:
         transforms.append(("weights_unknown_x2^-40", dict(emb="equator", wscale_unk=2.0 ** -40)))
         transforms.append(("weights_both_tiny", dict(emb="equator", wscale_unk=2.0 ** -30, wscale_ref=2.0 ** -27)))
         transforms.append(("weights_reference_x2^40", dict(emb="equator", wscale_ref=2.0 ** 40)))
+        # a weighted reference sample against unknown objects / randoms WITHOUT a weight column
+        transforms.append(("weights_reference_x4,unknown_unweighted", dict(emb="equator", wscale_ref=4.0, unweighted_unk=True)))
+
         for perm in list(itertools.permutations(range(nc)))[1:]:
             transforms.append((f"centres_permuted", dict(emb="equator", perm=perm)))
         transforms.append(("inherited_centres:pole", dict(emb="meridian_pole", inherit=True)))
         transforms.append(("inherited_centres:tilted", dict(emb="tilted", inherit=True)))
         base_inh = None
+        base_unw = None
         for name, kw in transforms:
             ref = base
+            if name == "weights_reference_x4,unknown_unweighted":
+                if base_unw is None:
+                    base_unw = measure(yaw, sc, A, B, root / "w", "equator", unweighted_unk=True) or "skip"
+                if base_unw == "skip":
+                    continue
+                ref = base_unw
             if kw.get("inherit"):
                 if base_inh is None:
                     try:
@@ -193,7 +214,11 @@ def _case(ctx, yaw, case, A, B, sc, root, rng, embs, nc) -> None:
                 # real patch k = model patch perm[k]: jackknife sample k leaves out that patch
                 exp_samples = ref["samples"][list(perm)]
                 exp_nzs = ref["nz_samples"][list(perm)]
-            checks = [("amplitude", got["amp"], ref["amp"]), ("jackknife_samples", got["samples"], exp_samples),
+            checks = []
+            if got.get("amp_ls") is not None and ref.get("amp_ls") is not None:
+                exp_ls = ref["samples_ls"][list(perm)] if perm is not None else ref["samples_ls"]
+                checks += [("landy_szalay_amplitude", got["amp_ls"], ref["amp_ls"]), ("landy_szalay_samples", got["samples_ls"], exp_ls)]
+            checks += [("amplitude", got["amp"], ref["amp"]), ("jackknife_samples", got["samples"], exp_samples),
                       ("covariance", got["cov"], ref["cov"]), ("redshift_estimate", got["nz"], ref["nz"]),
                       ("redshift_estimate_samples", got["nz_samples"], exp_nzs),
                       ("autocorrelation_amplitude", got["auto_amp"], ref["auto_amp"]), ("autocorrelation_samples", got["auto_samples"], exp_auto)]
